@@ -6,6 +6,7 @@ require (
 	github.com/hashicorp/memberlist v0.5.3
 	github.com/olric-data/olric v0.0.0
 	github.com/redis/go-redis/v9 v9.7.3
+	github.com/vmihailenco/msgpack/v5 v5.4.1
 )
 
 require (
@@ -30,7 +31,6 @@ require (
 	github.com/tidwall/btree v1.7.0 // indirect
 	github.com/tidwall/match v1.1.1 // indirect
 	github.com/tidwall/redcon v1.6.2 // indirect
-	github.com/vmihailenco/msgpack/v5 v5.4.1 // indirect
 	github.com/vmihailenco/tagparser/v2 v2.0.0 // indirect
 	golang.org/x/net v0.38.0 // indirect
 	golang.org/x/sync v0.13.0 // indirect
